@@ -37,9 +37,12 @@ QBad(kind, o, x) ==
                            ELSE IF o.idx # x.idx THEN "index" ELSE IF o.col # x.col THEN "varied" ELSE ""
       [] kind = "subset" -> IF o.yes # x.yes \/ o.no # x.no THEN "subset" ELSE ""
       [] kind = "conv" ->
-           IF o.arr # x.arr THEN "array" ELSE IF o.dict # x.dict THEN "dict"
+           IF o.fault # "" THEN "fault:" \o o.fault
+           ELSE IF o.arr # x.arr THEN "array" ELSE IF o.dict # x.dict THEN "dict"
            ELSE IF o.idx # x.idx \/ o.idxint # x.idxint THEN "index"
            ELSE IF o.names # x.names THEN "names" ELSE IF o.arrlist # x.arrlist THEN "array-from-list"
+           ELSE IF o.arrint # x.arrint THEN "array-dtype" ELSE IF o.arr2d # x.arr2d THEN "array-2d"
+           ELSE IF o.argkept # x.argkept THEN "argument-changed" ELSE IF o.varied0 # x.varied0 THEN "varied-none"
            ELSE IF o.arrextra # x.arrextra THEN "array-extra-key" ELSE IF o.refused # x.refused THEN "refusals"
            ELSE IF o.vkeys # x.vkeys THEN "varied-keys"
            ELSE IF o.varied # x.varied THEN "varied" ELSE ""
@@ -66,8 +69,19 @@ Step(e) ==
       [] e.op = "Query2"   -> Clean(e.obs) /\ Query2(e.i, e.j, e.kind) /\ QBad(e.kind, e.obs, out'.exp) = ""
       [] OTHER -> FALSE
 
+(* frame property: a step changes only the systems it names.  Every observation lists all      *)
+(* systems as they are after the step; the listing of the previous step must be the workspace    *)
+(* the specification arrived at (checked before the next event, and before "End")               *)
+PrevAllOK ==
+    IF pos = 1 THEN TRUE
+    ELSE LET p == Traces[tid][pos - 1] IN
+         IF "all" \notin DOMAIN p.obs THEN TRUE
+         ELSE IF Len(p.obs.all) # Len(ws) THEN FALSE
+         ELSE \A k \in 1..Len(ws) : ShapeOK(p.obs.all[k], ws[k])
+
 TStep ==
     /\ verdict = "none" /\ pos <= Len(Traces[tid])
+    /\ PrevAllOK
     /\ IF Ev.op = "End"
        THEN verdict' = "accept" /\ UNCHANGED vars
        ELSE Step(Ev) /\ verdict' = "none"
@@ -84,6 +98,8 @@ TNext == TStep \/ TReject
 ObsFault(o) == IF o.raised THEN "raised:" \o o.exc ELSE IF o.bad # "" THEN "bad:" \o o.bad ELSE ""
 Clause ==
     IF pos > Len(Traces[tid]) THEN "model:no-end-event"
+    ELSE IF ~PrevAllOK THEN "frame:another-system-changed"
+    ELSE IF Ev.op = "End" THEN "model:end"
     ELSE LET e == Ev IN
       IF e.op = "Make" THEN
           (IF ~MakeInModel(e.rx, e.mode, e.given, e.opt) THEN "model:Make"
